@@ -88,7 +88,13 @@ class LeakyClamp(Module):
         Returns:
             torch.Tensor
         """
-        return leaky_clamp(input, min=min, max=max, clamped_slope=self.clamped_slope)
+        return leaky_clamp(
+            input,
+            min=min,
+            max=max,
+            clamped_slope=self.clamped_slope,
+            inverted_output=self.inverted_output,
+        )
 
 
 class Clamp(Module):
@@ -156,6 +162,10 @@ class Clamp(Module):
         tensor([0.0000, 0.5000])
     """
 
+    def __init__(self, inverted_output: str = "mean") -> None:
+        super().__init__()
+        self.inverted_output = inverted_output
+
     def forward(
         self, input: Tensor, min: Optional[Tensor] = None, max: Optional[Tensor] = None
     ) -> Tensor:
@@ -169,4 +179,4 @@ class Clamp(Module):
         Returns:
             torch.Tensor
         """
-        return clamp(input, min=min, max=max)
+        return clamp(input, min=min, max=max, inverted_output=self.inverted_output)
